@@ -19,30 +19,36 @@ RULE = ("statement trees (depth 0..6, fan-out 0..5, first statement level may be
         "leaf statements, in the main stream only where the bootstrap's legacy comment exception cannot apply. "
         "Streams: tree (the property's quantifier), drop (one structural '}' deleted, an error is expected), quotestart "
         "(a statement begins with a quote character: F31), cmtafter (a '#' line follows a nested block inside a block: F32), "
+        "every stream compares texts AND parent links of CiscoConfParse(syntax='junos') with the model (conversion + pass 1 of the "
+        "shared bootstrap model); "
         "fixture (the 7 brace-syntax fixture files, implementation vs model plus an independent line-based converter where "
         "the file is in one-statement-per-line form), adversarial (character soup over braces, quotes, backslashes, tabs, CR, "
         "vertical tab, non-ASCII: implementation vs model only). Non-ASCII statements raise in pyparsing and are outside the "
         "property's alphabets: generated only in the adversarial stream. non-trivial = a tree of depth>=2 with >=4 statements "
         "rendered in a non-canonical layout, or a dropped brace, distinct by request line.")
-LEVEL_TEXT = ("Theorems (Lean 4, all well-formed statement trees, all layouts whose white space is blank/LF/CR — indentation, "
-              "blank lines, trailing blanks, semicolons present or absent, brace on the same or a later line, one-line and empty "
-              "blocks): converting the rendering returns exactly the preorder flattening with 4 blanks per level "
-              "(brace_roundtrip_partial; tabs in the layout are measured by correspondence only); in that flattening the nearest "
-              "preceding line with smaller indentation is the tree parent (flatten_parent); deleting one closing brace yields "
-              "ParseException (missing_close_errors_partial, for renderings without quote characters). The model (tab expansion, "
-              "pyparsing nested_expr/quoted_string tokenizer, recursive descent, unpack) is tied to convert_junos_to_ios / "
-              "CiscoConfParse(syntax='junos') by differential runs on every check.")
+LEVEL_TEXT = ("Theorems (Lean 4, all well-formed statement trees, all layouts whose white space is blank/tab/LF/CR — indentation, "
+              "blank lines, trailing white space, semicolons present or absent, brace on the same or a later line, one-line and "
+              "empty blocks): converting the rendering returns exactly the preorder flattening with 4 blanks per level "
+              "(brace_roundtrip); on that flattening the shared bootstrap model verified by C01-C03 (linkByIndent = C02's "
+              "specParent) links every statement to the statement that opened its innermost enclosing block "
+              "(flatten_parent_shared, local_rule_is_specParent, junos_tree); every accepted brace-syntax input yields a C03 "
+              "forest (junos_forest); deleting any one closing brace yields ParseException (missing_close_errors, quotes inside "
+              "statements and tabs allowed). The model (tab expansion, pyparsing nested_expr/quoted_string tokenizer, recursive "
+              "descent, unpack, then pass 1 of the shared bootstrap) is tied to convert_junos_to_ios / "
+              "CiscoConfParse(syntax='junos') texts and parent links by differential runs on every check.")
 LEVEL_NOTE = ("Trusted: Lean kernel; axioms propext/Classical.choice/Quot.sound only; the correspondence harness; pyparsing is "
-              "modelled, not verified (behaviour re-implemented by hand and measured). Proved about the model, measured against the code.")
+              "modelled, not verified (behaviour re-implemented by hand and measured). Hypotheses of the theorems: words are "
+              "non-empty visible ASCII without braces, the first word of a statement does not start with a quote (F31), the last "
+              "word does not end with ';'; for the parent theorem additionally no statement starts with '#' (a '#' line under a "
+              "deeper line is a root by C02's legacy comment exception: F32). Proved about the model, measured against the code.")
 EXHAUSTIVE = {"quick": False, "thorough": False}
 ASSUMPTIONS = [
     "pyparsing 3.1.1 nested_expr/quoted_string/expandtabs behave as the hand-written tokenizer (measured, not proved)",
     "words are non-empty printable ASCII without braces; the first word of a statement does not start with a quote "
     "(F31); the last word does not end with ';'",
-    "roundtrip theorem: layout whitespace is blank / LF / CR (tabs are covered by correspondence only)",
-    "missing-close theorem: additionally no quote character anywhere in a word",
-    "the parent rule is stated locally (nearest preceding line with strictly smaller indentation); its connection to the "
-    "bootstrap is C02's",
+    "layout white space is blank / tab / LF / CR",
+    "parent theorem: no statement starts with '#' (comment lines are linked by C02's rule, including its legacy exception)",
+    "for a brace syntax the bootstrap is pass 1 of the shared tree model only (no banner / macro pass), blank lines kept",
 ]
 TRUSTED = ["pyparsing 3.1.1 (modelled)", "str.expandtabs (modelled)"]
 
